@@ -127,14 +127,36 @@ theorem tRes_rel (e : TExpr) (t : V) (k : V → D) (k' : V → Out)
   | none => exact Rel.mk_rej [] hw.pae_ok
   | some v => exact hk v
 
+omit hw in
+theorem argItems_eq (items : List ArgItem) (t : V) :
+    argItems items t = (match ofItems items t with | some vs => .ok vs | none => .error pae) := by
+  induction items with
+  | nil => rfl
+  | cons it r ih =>
+    cases it with
+    | const v =>
+      simp only [argItems, ofItems, ih]
+      cases ofItems r t <;> rfl
+    | t e =>
+      simp only [argItems, ofItems]
+      cases tGet e t with
+      | none => rfl
+      | some v => simp only [Option.bind_some, ih]; cases ofItems r t <;> rfl
+
 theorem argVal_rel (a : Arg) (t : V) (l : Log) : Rel env (argVal a t, l) (ofArg a t, l) := by
   cases a with
   | const v => exact Rel.mk_ok v l
+  | val v => exact Rel.mk_ok v l
   | t e =>
     simp only [argVal, ofArg, tRes]
     cases tGet e t with
     | none => exact Rel.mk_rej l hw.pae_ok
     | some v => exact Rel.mk_ok v l
+  | seq tup items =>
+    simp only [argVal, ofArg, argItems_eq]
+    cases ofItems items t with
+    | none => exact Rel.mk_rej l hw.pae_ok
+    | some vs => exact Rel.mk_ok _ l
 
 /-- `_Bool.glomit` / `Match.glomit`: a rejection becomes the default, nothing else changes -/
 theorem default_rel (site : String) (hm : (site, 0, "GlomError") ∈ catchSites)
@@ -1758,11 +1780,17 @@ theorem evalSwitch_error (env : Env) (cases : List (Spec × Spec)) (d : Option A
 theorem argVal_error {a : Arg} {t : V} {e : PyExc} (h : argVal a t = .error e) : e = pae := by
   cases a with
   | const v => simp [argVal] at h
+  | val v => simp [argVal] at h
   | t x =>
     simp only [argVal, tRes] at h
     split at h
     · cases h
     · injection h with h; exact h.symm
+  | seq tup items =>
+    simp only [argVal, argItems_eq] at h
+    cases ho : ofItems items t with
+    | none => rw [ho] at h; simp only [Except.map] at h; injection h with h; exact h.symm
+    | some vs => rw [ho] at h; simp only [Except.map] at h; cases h
 
 
 /-! ### operands that are objects which exist already; programs -/
